@@ -207,7 +207,7 @@ pub fn isolation(_case: &Case, h: &Hist) -> Vec<Violation> {
 pub fn stall_report(case: &Case, h: &Hist) -> Vec<Violation> {
     let mut v = Vec::new();
     for c in &h.cmds {
-        let (Some(end), Some(res)) = (c.end, c.res.as_ref()) else { continue };
+        let (Some(_), Some(res)) = (c.end, c.res.as_ref()) else { continue };
         if !is_run_cmd(&c.text) {
             continue;
         }
@@ -215,46 +215,55 @@ pub fn stall_report(case: &Case, h: &Hist) -> Vec<Violation> {
             Res::Ok | Res::Deadlock(_) | Res::MessageLoss(_) => {}
             _ => break, // other results are outside this oracle; later commands are terminated
         }
-        let q = queued_at(case, h, end);
-        let in_sim: Vec<(String, usize)> = {
-            let mut l: Vec<(String, usize)> = q.iter().filter(|(n, c)| case.in_sim(**n) && **c > 0).map(|(n, c)| (case.fq_name(*n), *c as usize)).collect();
-            l.sort();
-            l
-        };
-        let orphan_total: i64 = q.iter().filter(|(n, _)| !case.in_sim(**n)).map(|(_, c)| *c).sum();
-        let negative = q.values().any(|c| *c < 0);
-        if negative {
-            v.push(Violation::new("harness_trace", format!("negative queue count {:?}", q)));
-        }
-        let has_sub = q.keys().any(|n| case.in_sim(*n) && case.nodes[*n].parent.is_some());
-        let shape = if has_sub { "submodel" } else { "toplevel" };
-        match res {
-            Res::Ok => {
-                if !q.is_empty() {
-                    v.push(Violation::keyed("c06_missed_stall", shape, format!("`{}` returned Ok although messages are queued: {:?}", c.text, q)));
-                }
-            }
-            Res::Deadlock(list) => {
-                if in_sim.is_empty() {
-                    v.push(Violation::keyed("c06_false_deadlock", shape, format!("`{}` reported Deadlock({:?}) but no model of the simulation holds a message (queued: {:?})", c.text, list, q)));
-                } else if *list != in_sim {
-                    v.push(Violation::keyed("c06_wrong_deadlock_list", shape, format!("`{}` reported Deadlock({:?}); exact list is {:?}", c.text, list, in_sim)));
-                }
-            }
-            Res::MessageLoss(n) => {
-                if q.is_empty() {
-                    v.push(Violation::keyed("c06_false_message_loss", "all_processed", format!("`{}` reported MessageLoss({}) although every sent message was processed", c.text, n)));
-                } else if !in_sim.is_empty() {
-                    v.push(Violation::keyed("c06_loss_instead_of_deadlock", shape, format!("`{}` reported MessageLoss({}) but models of the simulation hold messages: {:?}", c.text, n, in_sim)));
-                } else if *n as i64 != orphan_total {
-                    v.push(Violation::keyed("c06_wrong_loss_count", shape, format!("`{}` reported MessageLoss({}); {} messages sit in orphan mailboxes", c.text, n, orphan_total)));
-                }
-            }
-            _ => {}
-        }
+        v.extend(stall_check_cmd(case, h, c));
         if !matches!(res, Res::Ok) {
             break;
         }
+    }
+    v
+}
+
+/// Judges the result of one run command (`Ok`, `Deadlock` or `MessageLoss`)
+/// against pushes - pops per mailbox at the moment the command returned.
+pub fn stall_check_cmd(case: &Case, h: &Hist, c: &crate::hist::CmdRec) -> Vec<Violation> {
+    let mut v = Vec::new();
+    let (Some(end), Some(res)) = (c.end, c.res.as_ref()) else { return v };
+    let q = queued_at(case, h, end);
+    let in_sim: Vec<(String, usize)> = {
+        let mut l: Vec<(String, usize)> = q.iter().filter(|(n, c)| case.in_sim(**n) && **c > 0).map(|(n, c)| (case.fq_name(*n), *c as usize)).collect();
+        l.sort();
+        l
+    };
+    let orphan_total: i64 = q.iter().filter(|(n, _)| !case.in_sim(**n)).map(|(_, c)| *c).sum();
+    let negative = q.values().any(|c| *c < 0);
+    if negative {
+        v.push(Violation::new("harness_trace", format!("negative queue count {:?}", q)));
+    }
+    let has_sub = q.keys().any(|n| case.in_sim(*n) && case.nodes[*n].parent.is_some());
+    let shape = if has_sub { "submodel" } else { "toplevel" };
+    match res {
+        Res::Ok => {
+            if !q.is_empty() {
+                v.push(Violation::keyed("c06_missed_stall", shape, format!("`{}` returned Ok although messages are queued: {:?}", c.text, q)));
+            }
+        }
+        Res::Deadlock(list) => {
+            if in_sim.is_empty() {
+                v.push(Violation::keyed("c06_false_deadlock", shape, format!("`{}` reported Deadlock({:?}) but no model of the simulation holds a message (queued: {:?})", c.text, list, q)));
+            } else if *list != in_sim {
+                v.push(Violation::keyed("c06_wrong_deadlock_list", shape, format!("`{}` reported Deadlock({:?}); exact list is {:?}", c.text, list, in_sim)));
+            }
+        }
+        Res::MessageLoss(n) => {
+            if q.is_empty() {
+                v.push(Violation::keyed("c06_false_message_loss", "all_processed", format!("`{}` reported MessageLoss({}) although every sent message was processed", c.text, n)));
+            } else if !in_sim.is_empty() {
+                v.push(Violation::keyed("c06_loss_instead_of_deadlock", shape, format!("`{}` reported MessageLoss({}) but models of the simulation hold messages: {:?}", c.text, n, in_sim)));
+            } else if *n as i64 != orphan_total {
+                v.push(Violation::keyed("c06_wrong_loss_count", shape, format!("`{}` reported MessageLoss({}); {} messages sit in orphan mailboxes", c.text, n, orphan_total)));
+            }
+        }
+        _ => {}
     }
     v
 }
